@@ -22,6 +22,8 @@
 #include <cstl/hash.h>
 #include <cstl/dlist.h>
 #include <cstl/slist.h>
+#include <sys/mman.h>
+#include <unistd.h>
 
 #define MAXE 20
 #define HDR 16
@@ -53,19 +55,41 @@ static void fill(int i, size_t from, size_t to, unsigned gen)
     }
 }
 
+/* Some elements are placed so that the address of their NODE is an exact multiple of 2^32 (its low 32 bits are all zero): a
+ * pointer test or comparison done in a 32-bit type sees such a node as NULL / equal to another.  Address space is reserved with
+ * mmap (PROT_NONE, no memory behind it) and only the pages of the element are opened. */
+static void *round_base[MAXE];
+static size_t round_len[MAXE];
+static int round_mode;
+static unsigned char *place_round(int i)
+{
+    const size_t pg = (size_t)sysconf(_SC_PAGESIZE), span = ((size_t)1 << 32) + blksz + 2 * pg;
+    unsigned char *base = mmap(NULL, span, PROT_NONE, MAP_PRIVATE | MAP_ANONYMOUS | MAP_NORESERVE, -1, 0), *node, *start, *lo;
+    if (base == MAP_FAILED) { VRT_COUNT("layout.round-address.skipped-no-address-space"); return NULL; }
+    node = (unsigned char *)((((uintptr_t)base + OFF + pg) + (((uintptr_t)1 << 32) - 1)) & ~(((uintptr_t)1 << 32) - 1));
+    start = node - OFF;
+    lo = (unsigned char *)((uintptr_t)start & ~(uintptr_t)(pg - 1));
+    if (mprotect(lo, (size_t)(start + blksz - lo + pg - 1) & ~(pg - 1), PROT_READ | PROT_WRITE) != 0) { munmap(base, span); VRT_COUNT("layout.round-address.skipped-no-address-space"); return NULL; }
+    round_base[i] = base; round_len[i] = span;
+    VRT_COUNT("layout.elements.node-at-a-multiple-of-2pow32");
+    return start;
+}
 static void mk(size_t off, size_t nodesz, int ne)
 {
     int i;
     OFF = off; NODESZ = nodesz; NE = ne;
     blksz = OFF + NODESZ + TRAIL;
     for (i = 0; i < NE; i++) {
-        blk[i] = vrt_alloc(blksz); shadow[i] = vrt_alloc(blksz);
+        round_base[i] = NULL;
+        blk[i] = (round_mode && (i == 1 || i == 2 || i == 5)) ? place_round(i) : NULL;
+        if (blk[i] == NULL) { round_base[i] = NULL; blk[i] = vrt_alloc(blksz); }
+        shadow[i] = vrt_alloc(blksz);
         memset(blk[i] + OFF, 0xd7, NODESZ);
         fill(i, 0, blksz, 0);
         key[i] = 0; linked[i] = 0;
     }
 }
-static void unmk(void) { int i; for (i = 0; i < NE; i++) { vrt_free(blk[i]); vrt_free(shadow[i]); } }
+static void unmk(void) { int i; for (i = 0; i < NE; i++) { if (round_base[i] != NULL) munmap(round_base[i], round_len[i]); else vrt_free(blk[i]); vrt_free(shadow[i]); } }
 
 /* after every library call */
 static void payloads(const char *entry)
@@ -426,6 +450,7 @@ static void run_case(uint64_t idx)
     vrt_case_note("family %s%s, node at offset %zu of a %zu-byte element, %d elements, %d operations, repetition %d", fams[f], f == 1 ? " (rbtree)" : f == 0 ? " (bintree)" : "",
                   off, off + nodesz + TRAIL, ne, ops, rep);
     vrt_state(off >= 65536 ? "node-beyond-64KiB" : "node-near-start");
+    round_mode = (rep & 1) && off < (1u << 24);      /* every second repetition: three elements with their node at a multiple of 2^32 */
     mk(off, nodesz, ne);
     switch (f) {
     case 0: run_trees(0, ops); break;
@@ -442,6 +467,6 @@ static void run_case(uint64_t idx)
     VRT_COUNT("layout.cases");
 }
 static void winit(void) { vrt_sig_name(0, "family-x-offset"); }
-static const char *const required[] = { "layout.cases", "layout.cases.node-beyond-64KiB", "layout.cases.node-beyond-1MiB", "layout.payload-audits", "layout.owner-rewrote-payload", NULL };
+static const char *const required[] = { "layout.cases", "layout.cases.node-beyond-64KiB", "layout.cases.node-beyond-1MiB", "layout.payload-audits", "layout.owner-rewrote-payload", "layout.elements.node-at-a-multiple-of-2pow32", NULL };
 static const struct vrt_harness H = { "layout", ncases, run_case, winit, NULL, required, 16 };
 int main(int argc, char **argv) { return vrt_main(argc, argv, &H); }
